@@ -112,6 +112,69 @@ func momentRef(x, w []float64, c dd, ec float64, k int) (val, tol float64) {
 	return
 }
 
+// shape holds the reference skewness and excess kurtosis with their bounds.
+type shape struct {
+	skew, tolSkew float64
+	kurt, tolKurt float64
+	okSkew        bool
+	okKurt        bool
+}
+
+// shapeRef evaluates the bias-corrected skewness W/((W-1)(W-2)) sum w z^3 and
+// excess kurtosis (W+1)W/((W-1)(W-2)(W-3)) sum w z^4 - 3(W-1)^2/((W-2)(W-3)),
+// z = (x-mean)/s with the unbiased s, as implemented for total weight W.
+func shapeRef(r *uniRef) (sh shape) {
+	x, w := r.x, r.w
+	nf := float64(r.n)
+	Wf := r.W.f()
+	if isConst(x) || Wf-1 < 0.5 {
+		return
+	}
+	v, tolv := r.variance(1)
+	sdRef, sdTolv := math.Sqrt(v), sdTol(v, tolv)
+	if !(sdRef > 0) {
+		return
+	}
+	rs := sdTolv / sdRef
+	if !(rs < 1e-3) {
+		return
+	}
+	sref := r.S.div(r.W.subf(1)).sqrt()
+	var s3, s4 dd
+	var e3, e4, a3, a4 float64
+	for i, v := range x {
+		z := df(v).sub(r.m).div(sref)
+		wi := wOr1(w, i)
+		z2 := z.mul(z)
+		s3 = s3.add(z2.mul(z).mulf(wi))
+		s4 = s4.add(z2.mul(z2).mulf(wi))
+		az := math.Abs(z.f())
+		ez := (r.em/sdRef)/(1-rs) + az*rs*1.01 + 4*u*az
+		b := az + ez
+		e3 += wi * 3 * ez * b * b
+		e4 += wi * 4 * ez * b * b * b
+		a3 += wi * b * b * b
+		a4 += wi * b * b * b * b
+	}
+	if Wf >= 2.5 {
+		corr := r.W.div(r.W.subf(1)).div(r.W.subf(2))
+		sh.skew = s3.mul(corr).f()
+		rc := r.relWminus(1) + r.relWminus(2) + 6*u
+		sh.tolSkew = 2 * (math.Abs(corr.f())*(e3+(nf+8)*u*a3) + math.Abs(sh.skew)*rc)
+		sh.okSkew = true
+	}
+	if Wf >= 3.5 {
+		W := r.W
+		mul := W.addf(1).div(W.subf(1)).mul(W.div(W.subf(2))).div(W.subf(3))
+		off := W.subf(1).div(W.subf(2)).mul(W.subf(1).div(W.subf(3))).mulf(3)
+		sh.kurt = s4.mul(mul).sub(off).f()
+		rc := 2*r.relWminus(1) + 2*r.relWminus(2) + 2*r.relWminus(3) + 12*u
+		sh.tolKurt = 2 * (math.Abs(mul.f())*(e4+(nf+8)*u*a4) + (math.Abs(s4.mul(mul).f())+math.Abs(off.f()))*rc)
+		sh.okKurt = true
+	}
+	return
+}
+
 func checkUni(c uniCase) *vk.Failure {
 	x, w := c.S.data()
 	n := len(x)
@@ -164,7 +227,7 @@ func checkUni(c uniCase) *vk.Failure {
 	vr = append(vr, vres{name: "PopMeanStdDev", got: s4, k: 0, sd: true, needMean: true, gotMean: m4})
 	var deferred *vk.Failure
 	sampleOK := Wf-1 >= 0.5 // documented: with weights summing to 1 or less a biased estimator should be used
-	var sdRef, sdTolv float64
+	var sdRef float64
 	for _, e := range vr {
 		if e.needMean && !vk.SameBits(e.gotMean, mean) {
 			return vk.Failf("mean-consistency", "%s mean %v differs from Mean %v %s", e.name, e.gotMean, mean, ctx)
@@ -177,7 +240,7 @@ func checkUni(c uniCase) *vk.Failure {
 		if e.sd {
 			want, wtol = math.Sqrt(v), sdTol(v, tol)
 			if e.k == 1 {
-				sdRef, sdTolv = want, wtol
+				sdRef = want
 			}
 		}
 		// variance >= 0 (a negative rounding residue also turns the standard
@@ -220,51 +283,19 @@ func checkUni(c uniCase) *vk.Failure {
 	}
 
 	// --- Skew, ExKurtosis (need non-constant data and enough weight)
-	if !constant && sampleOK && sdRef > 0 {
-		rs := sdTolv / sdRef
-		if rs < 1e-3 {
-			sref := r.S.div(r.W.subf(1)).sqrt()
-			var s3, s4 dd
-			var e3, e4, a3, a4 float64
-			for i, v := range x {
-				z := df(v).sub(r.m).div(sref)
-				wi := wOr1(w, i)
-				z2 := z.mul(z)
-				s3 = s3.add(z2.mul(z).mulf(wi))
-				s4 = s4.add(z2.mul(z2).mulf(wi))
-				az := math.Abs(z.f())
-				ez := (r.em/sdRef)/(1-rs) + az*rs*1.01 + 4*u*az
-				b := az + ez
-				e3 += wi * 3 * ez * b * b
-				e4 += wi * 4 * ez * b * b * b
-				a3 += wi * b * b * b
-				a4 += wi * b * b * b * b
-			}
-			if Wf >= 2.5 {
-				corr := r.W.div(r.W.subf(1)).div(r.W.subf(2))
-				want := s3.mul(corr).f()
-				rc := r.relWminus(1) + r.relWminus(2) + 6*u
-				tol := 2 * (math.Abs(corr.f())*(e3+(nf+8)*u*a3) + math.Abs(want)*rc)
-				got := stat.Skew(x, w)
-				if f := failClose("skew", got, want, tol, ctx); f != nil {
-					return f
-				}
-			}
-			if Wf >= 3.5 {
-				W := r.W
-				mul := W.addf(1).div(W.subf(1)).mul(W.div(W.subf(2))).div(W.subf(3))
-				off := W.subf(1).div(W.subf(2)).mul(W.subf(1).div(W.subf(3))).mulf(3)
-				want := s4.mul(mul).sub(off).f()
-				rc := 2*r.relWminus(1) + 2*r.relWminus(2) + 2*r.relWminus(3) + 12*u
-				tol := 2 * (math.Abs(mul.f())*(e4+(nf+8)*u*a4) + (math.Abs(s4.mul(mul).f())+math.Abs(off.f()))*rc)
-				got := stat.ExKurtosis(x, w)
-				if f := failClose("exkurtosis", got, want, tol, ctx); f != nil {
-					return f
-				}
-			}
-		} else {
-			vk.Class("uni skew-skipped-illconditioned")
+	sk := shapeRef(r)
+	if sk.okSkew {
+		if f := failClose("skew", stat.Skew(x, w), sk.skew, sk.tolSkew, ctx); f != nil {
+			return f
 		}
+	}
+	if sk.okKurt {
+		if f := failClose("exkurtosis", stat.ExKurtosis(x, w), sk.kurt, sk.tolKurt, ctx); f != nil {
+			return f
+		}
+	}
+	if !constant && !sk.okSkew {
+		vk.Class("uni skew-skipped (ill-conditioned or total weight too small)")
 	}
 
 	// --- Mode
@@ -404,6 +435,21 @@ func checkUni(c uniCase) *vk.Failure {
 					return f
 				}
 			}
+			// skewness takes the sign of a, excess kurtosis is invariant
+			if sy := shapeRef(ry); sk.okSkew && sy.okSkew {
+				sg := 1.0
+				if a < 0 {
+					sg = -1
+				}
+				if f := failClose("affine-skew", stat.Skew(y, w), sg*stat.Skew(x, w), sk.tolSkew+sy.tolSkew, fmt.Sprintf("a=%v b=%v %s", a, b, ctx)); f != nil {
+					return f
+				}
+				if sk.okKurt && sy.okKurt {
+					if f := failClose("affine-exkurtosis", stat.ExKurtosis(y, w), stat.ExKurtosis(x, w), sk.tolKurt+sy.tolKurt, fmt.Sprintf("a=%v b=%v %s", a, b, ctx)); f != nil {
+						return f
+					}
+				}
+			}
 		}
 	}
 	return deferred
@@ -422,7 +468,7 @@ func drawUni(t *rapid.T) uniCase {
 }
 
 func TestUni(t *testing.T) {
-	vk.Run(t, "uni", vk.Opts{Quick: 30000, Thorough: 900000, NoCrumb: true}, drawUni, checkUni)
+	vk.Run(t, "uni", vk.Opts{Quick: 60000, Thorough: 900000, NoCrumb: true}, drawUni, checkUni)
 }
 
 // ---- positive data: GeometricMean, HarmonicMean; angles: CircularMean ----------
@@ -517,7 +563,7 @@ func checkPos(c posCase) *vk.Failure {
 }
 
 func TestPos(t *testing.T) {
-	vk.Run(t, "pos", vk.Opts{Quick: 8000, Thorough: 250000, NoCrumb: true}, func(t *rapid.T) posCase {
+	vk.Run(t, "pos", vk.Opts{Quick: 15000, Thorough: 250000, NoCrumb: true}, func(t *rapid.T) posCase {
 		return posCase{
 			S:    drawSample(t, 1, 200, []int{dcTies, dcConst, dcDyadic, dcGauss, dcWide}, []int{wcNil, wcOnes, wcInts, wcReal, wcZeros}),
 			Perm: rapid.Uint64().Draw(t, "perm"),
@@ -613,7 +659,7 @@ func checkCirc(c circCase) *vk.Failure {
 }
 
 func TestCirc(t *testing.T) {
-	vk.Run(t, "circ", vk.Opts{Quick: 5000, Thorough: 150000, NoCrumb: true}, func(t *rapid.T) circCase {
+	vk.Run(t, "circ", vk.Opts{Quick: 10000, Thorough: 150000, NoCrumb: true}, func(t *rapid.T) circCase {
 		return circCase{
 			S:     drawSample(t, 1, 200, []int{dcTies, dcConst, dcDyadic, dcGauss}, []int{wcNil, wcOnes, wcInts, wcReal, wcZeros}),
 			Shift: vk.F(float64(rapid.IntRange(-32, 32).Draw(t, "shift")) / 8),
